@@ -170,7 +170,9 @@ class Engine:
     # -- runner interface ----------------------------------------------------------------------
     def configs(self, tier, prop):
         if prop == "C20":
-            return [("history", 600 if tier == "quick" else 40_000), ("codegen", 16 if tier == "quick" else 600)]
+            # edit_race: a source is edited WHILE transfer_model calls are running (file-operation granularity)
+            return [("history", 600 if tier == "quick" else 40_000), ("codegen", 16 if tier == "quick" else 600),
+                    ("edit_race", 120 if tier == "quick" else 8_000)]
         if prop == "C19":
             n = len(MODELS) * len(cp.OPTION_SETS)
             # roundtrip_codegen: the compiled-library format (every simulated process a child interpreter, seconds per build)
@@ -315,6 +317,12 @@ class Engine:
             return {"kind": "crash", "vals_seed": rng.randrange(1 << 30)}
         if config.startswith("trunc:"):
             return {"kind": "trunc", "vals_seed": rng.randrange(1 << 30)}
+        if config == "edit_race":
+            return {"kind": "race", "editor": True, "model": rng.choice([m for m in MODELS if not cp.POOL[m].get("late")]),
+                    "vals_seed": rng.randrange(1 << 30), "pre": rng.choice(["none", "valid", "valid"]),
+                    "optsets": [0, 0] if rng.random() < 0.6 else [rng.randrange(len(cp.OPTION_SETS))] * 2,
+                    "n_actors": rng.choice([1, 1, 2]), "chunk": None, "edit_after": rng.randint(0, 14),
+                    "edit_vals": _vals(rng), "sched_seed": rng.randrange(1 << 62), "cost": [50, 2000]}
         if config == "race":
             return {"kind": "race", "model": rng.choice(MODELS), "vals_seed": rng.randrange(1 << 30),
                     "pre": rng.choice(["none", "valid", "stale"]), "optsets": [rng.randrange(len(cp.OPTION_SETS)),
@@ -1205,6 +1213,27 @@ class Engine:
 
             for idx in range(plan["n_actors"]):
                 sched.spawn(idx, idx, body(idx))
+            ref_before = None
+            edited = [False]
+            if plan.get("editor"):
+                # an editor saves one of the model's files while the calls are running.  What the calls return that overlap
+                # the edit may be either version; whoever asks afterwards must get the new one.
+                ref_before = self.reference(world, optsets[0], LABELS[0])
+
+                def editor(actor):
+                    for _ in range(plan.get("edit_after", 0)):
+                        sched.yield_point("edit_wait", "")
+                    k_ = "model:" + next(iter(world.ent["model"]))
+                    vals = dict(plan["edit_vals"])
+                    if vals == world.files[k_][0]:
+                        vals["c"] = vals["c"] % 9 + 1
+                    world.files[k_] = (vals, world.files[k_][1])
+                    world.write(k_, world.edit_time_us())
+                    edited[0] = True
+                    log.add(clock.now_us, plan["n_actors"], "edit", k_)
+                    sched.yield_point("edit_done", "")
+
+                sched.spawn(plan["n_actors"], 100, editor)
             with fs:
                 sched.run()
             plan = dict(plan, schedule=source.record())
@@ -1213,13 +1242,22 @@ class Engine:
                 got, err = outcomes[idx]
                 shape = ["race", plan["pre"], "same_options" if optsets[0] == optsets[1] else "different_options"]
                 viol = self.judge(world, optsets[idx % 2], LABELS[0], got, err, shape, "concurrent transfer_model of actor %d" % idx)
+                if viol and ref_before is not None:
+                    # overlapping the edit: the version from before the edit is as good an answer
+                    shape = ["edit_race", plan["pre"], "concurrent_call"]
+                    older = self._judge(ref_before[0], ref_before[1], got, err, shape, "transfer_model of actor %d overlapping an edit" % idx)
+                    viol = None if older is None else (viol[0], viol[1], shape, viol[3] + " (nor does it equal the version before the edit)")
                 if viol:
                     break
             if viol is None:
                 clock.advance(2_000_000)
                 got, err = self.call(procs.ApiProcess(LABELS[0]), world, optsets[0], "cache")
-                viol = self.judge(world, optsets[0], LABELS[0], got, err, ["race", plan["pre"], "later_call"],
-                                  "transfer_model after the concurrent calls")
+                viol = self.judge(world, optsets[0], LABELS[0], got, err,
+                                  ["edit_race" if plan.get("editor") else "race", plan["pre"], "later_call"],
+                                  "transfer_model after the concurrent calls" + (" and the edit" if plan.get("editor") else ""))
         sig = sched.sched_sig.hexdigest()[:16]
         counts["probe:interleaved_file_ops"] = 1 if len(set(source.record()["picks"])) > 1 else 0
+        if plan.get("editor"):
+            counts["probe:edit_during_call"] = 1 if edited[0] and any(k == "edit" for *_x, k, _d in log.tail(400)) else 0
+            return self._result(plan, log, clock, counts, {"history_states": ["edit_race:" + sig]}, viol, sched.total_steps)
         return self._result(plan, log, clock, counts, {"crash_points_and_schedules": [sig]}, viol, sched.total_steps)
